@@ -697,6 +697,27 @@ func (g *gen) shaped(d *opDesc) (*big.Int, *big.Int) {
 			b = big.NewInt(int64(g.r.Intn(4)))
 			b = g.sign(b)
 		}
+	case "codec":
+		// the decoders' limits are stated in bits (1024 resp. 256+60), the text they read in decimal digits with
+		// a sign and a point: probe both signs between the last power of ten and the bit bound (the longest text
+		// a decoder has to accept), at the bound, and at every digit-count edge below it
+		lim := maxBig // decoder bound of BigDec
+		if d.fam == "dec" {
+			lim = maxDec
+		}
+		top := pow10(len(lim.String()) - 1) // largest power of ten not above the bound
+		switch g.r.Intn(4) {
+		case 0: // anywhere in [10^(digits-1), bound]
+			a = new(big.Int).Rand(g.r, new(big.Int).Add(new(big.Int).Sub(lim, top), one))
+			a.Add(a, top)
+		case 1: // the bound and its neighbours on the accepted side
+			a = new(big.Int).Sub(lim, big.NewInt(int64(g.r.Intn(3))))
+		case 2: // the last power of ten and its neighbours
+			a = g.delta(new(big.Int).Set(top))
+		case 3: // any digit-count edge
+			a = g.delta(pow10(g.r.Intn(len(lim.String()))))
+		}
+		a = g.sign(a)
 	case "unit", "unit64", "conv":
 		// divisor of the conversion
 		dv := S
